@@ -798,6 +798,31 @@ func causeTags(m *wasm.Module) string {
 			}
 		}
 	}
+	// an element item `global.get k` whose global is not a reference of the segment's type
+	gtype := func(k uint32) (byte, bool) {
+		for j := range m.ImportSection {
+			if m.ImportSection[j].Type == wasm.ExternTypeGlobal {
+				if k == 0 {
+					return m.ImportSection[j].DescGlobal.ValType, true
+				}
+				k--
+			}
+		}
+		if int(k) < len(m.GlobalSection) {
+			return m.GlobalSection[k].Type.ValType, true
+		}
+		return 0, false
+	}
+	for i := range m.ElementSection {
+		for _, it := range m.ElementSection[i].Init {
+			if it != wasm.ElementInitNullReference && it&(1<<30) != 0 {
+				if ty, ok := gtype(it &^ (1 << 30)); ok && ty != m.ElementSection[i].Type {
+					tags = append(tags, "element-item-global-not-a-reference")
+					break
+				}
+			}
+		}
+	}
 	if mismatch {
 		tags = append(tags, "tail-call-result-mismatch")
 	}
